@@ -48,9 +48,12 @@ def run(pid, tier, replay=None):
     v = vlib.Verdict(pid, tier)
     rnd = random.Random(vlib.seed() * 31 + 13)
     binary = vlib.build_harness()
+    sess_only = None
     if replay:
         rp = json.load(open(replay))["replay"]
         progs = [(rp["id"], rp["ast"])]
+        if rp.get("session"):
+            sess_only, progs = [(rp["id"], rp["ast"])], []
     else:
         n = 250 if tier == "quick" else 8000
         progs = [(f"cls:{i}", gen.program_c03(rnd)) for i in range(n)] + \
@@ -88,27 +91,57 @@ def run(pid, tier, replay=None):
                              "observed": {"stdout": r.get("stdout", "")[:2000], "stderr": r.get("stderr", "")[-800:], "panic": r.get("panic", "")}})
             if "classes" in extra:
                 traces += cache_events(r, f"{c['id']}|{mname}")
+    # (3) the class programs once more as interactive sessions, one entry per prompt line: every entry is compiled into the
+    #     live module and its sites get cache slots behind those of the earlier entries; cached and forced-miss
+    sess = []
+    for cid, ast in (sess_only if sess_only is not None else [(c, a) for c, a in progs if c.startswith("cls:")]):
+        sast = ast if ast["k"] == "session" else lang.Session(list(ast["kids"]))
+        rec = lang.case_record(cid if cid.startswith("s:") else "s:" + cid, sast)
+        rec["ast"] = sast
+        sess.append(rec)
+    if sess:
+        spreds = langrun.predict(sess, v)
+        for mname, extra in (("session cached", {}), ("session forced-miss", {"force_miss": True})):
+            vmcases = [dict({"id": c["id"], "repl": [c_lang.one_line(lang.to_source(st, "canon")[0]).strip() for st in c["ast"]["kids"]]}, **extra) for c in sess]
+            res = vlib.run_batch(binary, vmcases, per_case_timeout=40)
+            for c, vc in zip(sess, vmcases):
+                p = spreds[c["id"]]
+                if p["st"].startswith("skip") or p["st"].startswith("model-error"):
+                    continue
+                r = res[c["id"]]
+                judged += 1
+                diff = c_lang.compare_repl(p, r)
+                if r.get("status") in ("panic", "crash", "timeout", "hang"):
+                    diff = f"{r.get('status')} {str(r.get('panic'))[:200]}"
+                if diff:
+                    v.violation(f"{c['id']} [{mname}]: {diff}"[:500],
+                                {"id": c["id"], "ast": c["ast"], "session": True, "mode": mname, "source": "\n".join(vc["repl"]),
+                                 "predicted": {"out": p["out"], "st": p["st"]},
+                                 "observed": {"stdout": r.get("stdout", "")[:2000], "stderr": r.get("stderr", "")[-800:], "panic": r.get("panic", "")}})
+        v.notes["sessions"] = len(sess)
     # TLC validates every cache event stream against the contract
-    os.makedirs(vlib.WORK, exist_ok=True)
-    path = os.path.join(vlib.WORK, f"trace_cache_{os.getpid()}.ndjson")
-    with open(path, "w") as f:
-        for e in traces:
-            f.write(json.dumps(e) + "\n")
-    r = vlib.tlc("Trace_Cache", "Trace_Cache", env={"TRACE": path}, workers=1, deque=True, timeout=3000, heap="16g")
-    vlib.drop_trace(path, "cache")
-    if "NOT_CONSUMED" in r["out"] or r["distinct"] == 0 or any(e.startswith("Error:") for e in r["errors"]):
-        raise vlib.ToolError("cache trace validation did not complete:\n" + r["out"][-2500:])
-    v.cov["states"] += r["distinct"]
-    v.cov["transitions"] += r["states"]
-    probes = sum(1 for e in traces if e["ev"] == "probe")
-    hits = sum(1 for e in traces if e["ev"] == "probe" and e["hit"])
-    bycase = {c["id"]: c for c in cases}
-    for rej in vlib.tlc_json(r["out"], "REJECT"):
-        cid = rej["run"].split("|")[0]
-        c = bycase[cid]
-        v.violation(f"{rej['run']}: cache event refused by the contract: {rej['ev']} {rej['kind']} '{rej['name']}' on class#{rej['c']} "
-                    f"hit={rej['hit']} produced idx={rej['idx']} mid={rej['mid']} but the class table says {rej['want']}"[:500],
-                    {"id": cid, "ast": c["ast"], "source": lang.to_source(c["ast"])[0], "event": rej})
+    probes = hits = 0
+    if traces:
+        os.makedirs(vlib.WORK, exist_ok=True)
+        path = os.path.join(vlib.WORK, f"trace_cache_{os.getpid()}.ndjson")
+        with open(path, "w") as f:
+            for e in traces:
+                f.write(json.dumps(e) + "\n")
+        r = vlib.tlc("Trace_Cache", "Trace_Cache", env={"TRACE": path}, workers=1, deque=True, timeout=3000, heap="16g")
+        vlib.drop_trace(path, "cache")
+        if "NOT_CONSUMED" in r["out"] or r["distinct"] == 0 or any(e.startswith("Error:") for e in r["errors"]):
+            raise vlib.ToolError("cache trace validation did not complete:\n" + r["out"][-2500:])
+        v.cov["states"] += r["distinct"]
+        v.cov["transitions"] += r["states"]
+        probes = sum(1 for e in traces if e["ev"] == "probe")
+        hits = sum(1 for e in traces if e["ev"] == "probe" and e["hit"])
+        bycase = {c["id"]: c for c in cases}
+        for rej in vlib.tlc_json(r["out"], "REJECT"):
+            cid = rej["run"].split("|")[0]
+            c = bycase[cid]
+            v.violation(f"{rej['run']}: cache event refused by the contract: {rej['ev']} {rej['kind']} '{rej['name']}' on class#{rej['c']} "
+                        f"hit={rej['hit']} produced idx={rej['idx']} mid={rej['mid']} but the class table says {rej['want']}"[:500],
+                        {"id": cid, "ast": c["ast"], "source": lang.to_source(c["ast"])[0], "event": rej})
     v.cov["evaluations"] = judged
     v.cov["distinct_nontrivial"] = len({lang.to_source(c["ast"])[0] for c in cases})
     v.cov["traces_validated_against_impl"] = 2 * len(cases)
@@ -120,6 +153,6 @@ def run(pid, tier, replay=None):
     v.notes["probe_hits"] = hits
     v.assumptions = ["class identity in events is the hook's registry id (fresh at every op_class, so an address reused by a new "
                      "class is a new class to the contract)", "the forced-miss switch is the hook in cache.rs get_*_cache"]
-    for c in cases[:2] + cases[-2:]:
+    for c in (cases[:2] + cases[-2:] if cases else []):
         v.cov["samples"].append({"id": c["id"], "source": lang.to_source(c["ast"])[0][:1200], "predicted_out": preds[c["id"]]["out"][:12]})
     return v.finish()
